@@ -166,7 +166,7 @@ def run(ctx, res):
     _inflate_growth(ctx, res)
 
 
-LIB_COMPRESSORS = {"LZ4_compress_default": (1, 3), "LZ4_compress_HC": (1, 3), "ZSTD_compress": (0, 1),
+LIB_COMPRESSORS = {"LZ4_compress_default": (1, 3), "LZ4_compress_HC": (1, 3), "ZSTD_compress": (0, 1), "ZSTD_compressCCtx": (1, 2),
                    "snappy_compress": (2, 3), "deflate": (None, None)}
 
 
@@ -341,6 +341,8 @@ def _levels(res, f, ev, row):
     lr = row["level_range"]
     target = {"_mtbl_compress_zlib": ("deflateInit_", 1), "_mtbl_compress_lz4hc": ("LZ4_compress_HC", 4),
               "_mtbl_compress_zstd": ("ZSTD_compress", 4)}.get(f.name)
+    if target and target[0] == "ZSTD_compress" and not f.calls("ZSTD_compress") and f.calls("ZSTD_compressCCtx"):
+        target = ("ZSTD_compressCCtx", 5)     # context-taking sibling: same level argument, one position later
     if target is None:
         return
     lvl = f.params[4]["name"]
@@ -443,6 +445,10 @@ def _inflate_growth(ctx, res):
         for i, e in enumerate(evs):
             if e.kind != "call" or e.a not in ("my_realloc", "realloc"):
                 continue
+            # a growth step is a realloc after which inflate runs again; a final trim is judged by R8 only
+            later_inflate = any(x.kind == "call" and x.a == "inflate" for x in evs[i + 1:])
+            if not later_inflate and p.end != "cut":
+                continue
             R = APE.vstr(e.c)
             NEW = APE.vstr(e.b[1])
             nxt = None
@@ -481,3 +487,35 @@ def _inflate_growth(ctx, res):
                       f.loc(e.node), p.describe(f))
     if n == 0:
         raise BrokenAnalysis("_mtbl_decompress_zlib: growth step not recognised")
+    # R8: realloc(p, 0) frees and returns NULL, which my_realloc turns into an abort: every realloc size must be provably positive
+    def positive(v):
+        v = v.strip()
+        if re.match(r"^#\d+$", v):
+            return int(v[1:]) > 0
+        if v.startswith("(") and v.endswith(")"):
+            inner = v[1:-1]
+            depth = 0
+            for i_, ch in enumerate(inner):
+                if ch == "(":
+                    depth += 1
+                elif ch == ")":
+                    depth -= 1
+                elif depth == 0 and ch in "+*":
+                    a_, b_ = inner[:i_], inner[i_ + 1:]
+                    if ch == "+":
+                        return positive(a_) or positive(b_)
+                    return positive(a_) and positive(b_)
+        return False
+    for g in prog.unit_funcs(U):
+        if not g.file.endswith("compression.c") or not g.calls(("my_realloc", "realloc")):
+            continue
+        evg = APE.run(prog, cg, g, bound=APE.BOUND, opaque_calls=("my_realloc",))
+        for p in evg.paths:
+            for e in p.events:
+                if e.kind == "call" and e.a in ("my_realloc", "realloc"):
+                    sz = APE.vstr(e.b[1])
+                    res.check(positive(sz), "C15.R8", site(g, "realloc-size-positive"),
+                              "reallocation size is provably positive (realloc(p, 0) returns NULL and the wrapper aborts)",
+                              "realloc is called with size %s, which can be 0 (e.g. an empty decompressed buffer): realloc(p,0) returns NULL and my_realloc aborts"
+                              % sz[:80], g.loc(e.node), p.describe(g))
+    res.floor("C15.R8", 1)
